@@ -4,7 +4,7 @@ coerce on the real code) + reference model extended with the documented coercion
 from __future__ import annotations
 
 import json
-from typing import Any
+from typing import Annotated, Any, Union
 
 from .. import infra
 from ..data import enumerate_data
@@ -19,6 +19,9 @@ from apischema import ValidationError, settings
 
 PROP = "C14"
 RULE = (
+    "[plus a world of discriminated unions / classes, plain and recursive (alternative = the class itself, reached as a "
+    "back-reference), on nested data: strict-accepted data stay accepted with an equal value under coerce=True and under "
+    "the right-typed / raising custom coercers] "
     "types: grammar of C01 (level<=1 fully; level 2 over one atom representative in quick, four in thorough); data: C01 "
     "data (k<=1) enriched at every position with numeric strings, every word of the boolean table in three casings, "
     "near-misses, '' and whitespace; modes: coerce=True, settings.deserialization.coerce=True, a custom coercer returning "
@@ -202,7 +205,84 @@ def select(tier, label):
     return True
 
 
+REC_DISC_SRC = '''
+@dataclass
+class RLeaf:
+    v: int = 0
+@dataclass
+class RNode:
+    children: List[Annotated[Union[RLeaf, "RNode"], discriminator("type")]] = field(default_factory=list)
+    best: Optional[Annotated[Union[RLeaf, "RNode"], discriminator("type")]] = None
+@discriminator("kind")
+@dataclass
+class RBase:
+    tag: int = 0
+@dataclass
+class RTip(RBase):
+    w: float = 0.5
+@dataclass
+class RBranch(RBase):
+    kids: List[RBase] = field(default_factory=list)
+    first: Optional["RBranch"] = None
+'''
+
+
+def run_discriminated(st):
+    """discriminated unions (C13's world) and recursive ones, which the C01 grammar has not: every datum accepted
+    in strict mode is accepted under coerce=True and under the right-typed / raising custom coercers with an equal value"""
+    import sys
+
+    from ..realize import PRELUDE, exec_source
+    from .c13 import DISC_SRC
+
+    m = exec_source(PRELUDE + DISC_SRC + REC_DISC_SRC)
+    targets = {name: (utp, key, list(mapping)) for name, (utp, key, mapping, _d) in m.EXPECT.items()}
+    data = {}
+    for name, (utp, key, mapped) in targets.items():
+        ds = []
+        for k in mapped + ["nope", 1, None]:
+            for body in ({}, {"x": 1}, {"x": "1"}, {"n": 2}, {"n": "2"}, {"v": 3}, {"x": 1, "zz": 0}):
+                ds.append(dict(body, **{key: k}))
+        ds += [{}, {"x": 1}, [], None, "a"]
+        data[name] = (utp, ds)
+    leaf = {"type": "RLeaf", "v": 1}
+    node0 = {"type": "RNode", "children": []}
+    node1 = {"type": "RNode", "children": [leaf, node0], "best": leaf}
+    node2 = {"type": "RNode", "children": [node1], "best": node1}
+    rn = [{}, {"children": []}, {"children": [leaf]}, {"children": [node0]}, {"children": [node1]}, {"children": [node2], "best": node2}, {"best": node0}, {"children": [{"type": "RLeaf", "v": "1"}]}, {"children": [{"type": "nope"}]}, {"children": [{"v": 1}]}]
+    data["RNode"] = (m.RNode, rn)
+    data["RLeafOrNode"] = (Annotated[Union[m.RLeaf, m.RNode], m.discriminator("type")], [leaf, node0, node1, node2, {"type": "RNode", "children": [{"type": "RLeaf", "v": "x"}]}])
+    tip = {"kind": "RTip", "w": 1.5}
+    br0 = {"kind": "RBranch", "kids": []}
+    br1 = {"kind": "RBranch", "kids": [tip, br0], "first": {"kids": [tip]}}
+    br2 = {"kind": "RBranch", "kids": [br1], "first": {"kids": [br1], "first": {"kids": []}}}
+    data["RBase"] = (m.RBase, [tip, br0, br1, br2, {"kind": "RTip", "w": "1.5"}, {"kind": "nope"}, {}])
+    data["RBranch"] = (m.RBranch, [{"kids": []}, {"kids": [tip]}, {"kids": [br1]}, {"kids": [br2], "first": {"kids": [br1]}}, {"kids": [{"w": 1}]}])
+    try:
+        for name, (utp, ds) in data.items():
+            strict = apischema.deserialization_method(utp)
+            for cname, co in (("coerce=True", True), ("right-typed coercer", c_right), ("raising coercer", c_raise)):
+                cm = apischema.deserialization_method(utp, coerce=co)
+                for d in ds:
+                    st.case("disc", name, cname, repr(d)[:80])
+                    k0, o0 = dc.run_impl(strict, d)
+                    k1, o1 = dc.run_impl(cm, d)
+                    base = {"label": "disc:" + name, "datum": repr(d)[:300], "coercer": cname}
+                    if k1 == "exc":
+                        st.violation(dict(base, signature={"kind": "exception", "exc": type(o1).__name__, "world": name}, what=f"{name} <- {d!r} under {cname} raised {o1!r}"[:300]))
+                    elif k0 == "ok" and (k1 != "ok" or not _same(o0, o1)):
+                        st.violation(dict(base, signature={"kind": "coercion_not_monotone", "world": name, "coercer": cname}, what=f"{name} <- {d!r}: strict gives {o0!r} but under {cname}: {o1 if k1 == 'ok' else dc.impl_errors(o1)[:3]!r}"[:400]))
+    finally:
+        sys.modules.pop(m.__name__, None)
+        apischema.cache.reset()
+    st.count("discriminated_worlds", len(data))
+
+
 def work(tier, widx, nworkers, st, extra):
+    import os
+
+    if widx == 0 and os.environ.get("VERIF_ONLY") in (None, "", "disc"):
+        run_discriminated(st)
     for i, label, spec in dc.my_types("quick", widx, nworkers):
         if select(tier, label):
             run_type(i, label, spec, tier, st)
